@@ -423,7 +423,8 @@ def same_object(tier, report):
 
     R = [("to_dataframe", lambda m: m.to_dataframe().to_dict(as_series=False)), ("head(2)", lambda m: digest(m.head(2))), ("tail(1)", lambda m: digest(m.tail(1))),
          ("sort(k)", lambda m: digest(m.sort("k"))), ("filter(b)", lambda m: digest(m.filter(pl.col("k") >= 1))), ("group_by(k2)", lambda m: [(str(k), digest(g)) for k, g in m.group_by("k2")]),
-         ("sample(2)", lambda m: digest(m.sample(min(2, m.count()), seed=0))), ("subset([1,0])", lambda m: digest(m.subset([1, 0]))), ("digest", lambda m: digest(m))]
+         ("sample(2)", lambda m: digest(m.sample(min(2, m.count()), seed=0))), ("subset([1,0])", lambda m: digest(m.subset([1, 0]))), ("digest", lambda m: digest(m)),
+         ("axes", lambda m: [np.round(m.z, 5).tolist(), np.round(m.y, 5).tolist(), np.round(m.x, 5).tolist()])]
     v = np.array([0.2, -0.1, 0.3])
     q = np.array([0.0, 0.3826834, 0.0, 0.9238795])
     G = [("translate", lambda m, c: m.translate([1.0, -2.0, 3.0], copy=c)), ("translate_internal", lambda m, c: m.translate_internal([0.5, 0.0, -1.0], copy=c)),
@@ -475,6 +476,7 @@ def featureless(tier, report):
     order; rows of a feature-less operand carry nulls in every feature column; the three containers agree in length; operands
     other than the receiver of append are left alone.  append of a table with columns the receiver lacks must be rejected and
     leave the receiver alone."""
+    import polars as pl
     from scipy.spatial.transform import Rotation
 
     from acryo import Molecules
@@ -485,11 +487,22 @@ def featureless(tier, report):
             return Molecules.empty()
         return Molecules(np.array([_f_pos(u) for u in uids], dtype=np.float32), Rotation.from_rotvec(np.array([_f_rotvec(u) for u in uids])))
 
-    parts = {"featured(0,1)": ("F", (0, 1)), "featured(2)": ("F", (2,)), "bare(3)": ("B", (3,)), "bare(10,11)": ("B", (10, 11)), "empty": ("B", ()), "featured-empty": ("F", ())}
-    build = lambda spec: make(spec[1]) if spec[0] == "F" else bare(spec[1])  # noqa
+    # "G": the same columns, but k is Float64 with fractional values (the same feature inferred as integer from one file and
+    # as float from another): rejecting the combination is fine, truncating the values is not
+    parts = {"featured(0,1)": ("F", (0, 1)), "featured(2)": ("F", (2,)), "bare(3)": ("B", (3,)), "bare(10,11)": ("B", (10, 11)), "empty": ("B", ()), "featured-empty": ("F", ()),
+             "featured-float-k(3,10)": ("G", (3, 10))}
+
+    def build(spec):
+        if spec[0] == "B":
+            return bare(spec[1])
+        m = make(spec[1])
+        if spec[0] == "G":
+            m = m.with_features((pl.col("k").cast(pl.Float64) + 0.5).alias("k"))
+        return m
+
     names = list(parts)
     combos = list(itertools.permutations(names, 2)) + ([c for c in itertools.permutations(names, 3)] if tier == "thorough" else
-                                                       [("featured(0,1)", "bare(3)", "featured(2)"), ("bare(3)", "featured(0,1)", "bare(10,11)"), ("bare(3)", "empty", "featured(2)")])
+                                                       [("featured(0,1)", "bare(3)", "featured(2)"), ("bare(3)", "featured(0,1)", "bare(10,11)"), ("bare(3)", "empty", "featured(2)"), ("featured(0,1)", "featured-float-k(3,10)", "featured(2)"), ("featured-float-k(3,10)", "featured(2)", "bare(10,11)")])
     opsx = [("concat", lambda ms: Molecules.concat(ms)), ("concat_with", lambda ms: _fold(ms, lambda a, b: a.concat_with(b))), ("append", lambda ms: _fold([ms[0].copy()] + list(ms[1:]), lambda a, b: a.append(b)))]
     n = 0
     for combo in combos:
@@ -505,15 +518,17 @@ def featureless(tier, report):
                 # a receiver without rows takes over the table appended to it (its own schema is not binding); a receiver
                 # with rows rejects columns it lacks, even when the appended table has no rows
                 k0, u0 = parts[combo[0]]
-                have_rows, have_cols = bool(u0), k0 == "F"
+                have_rows, have_cols = bool(u0), k0 in "FG"
                 for c in combo[1:]:
                     k, u = parts[c]
                     if not have_rows:
-                        have_cols = k == "F"
-                    elif k == "F" and not have_cols:
+                        have_cols = k in "FG"
+                    elif k in "FG" and not have_cols:
                         may_raise = True
                         must_raise = must_raise or bool(u)
                     have_rows = have_rows or bool(u)
+            if {"F", "G"} <= {parts[c][0] for c in combo}:
+                may_raise = True  # one column, two dtypes: a schema error is a rejection
             n += 1
             try:
                 r = fn(ms)
@@ -530,7 +545,7 @@ def featureless(tier, report):
                 report.violations.append((f"{ID}|featureless|{oname}|operand-altered", f"{oname} of {list(combo)} changed an operand", case))
             f = r.features
             nrow = r.count()
-            any_feat = any(k == "F" for k in kinds)
+            any_feat = any(k in "FG" for k in kinds)
             if nrow != len(want_u) or r.pos.shape != (nrow, 3) or (nrow and len(r.rotator) != nrow) or (f.width > 0 and f.height != nrow) or (any_feat and f.width == 0):
                 report.violations.append((f"{ID}|featureless|{oname}|length-mismatch", f"{oname} of {list(combo)}: {r.pos.shape[0]} positions, features {f.shape}, expected {len(want_u)} rows", case))
                 continue
@@ -541,7 +556,7 @@ def featureless(tier, report):
                     break
                 if f.width:
                     row = f.row(i, named=True)
-                    if k == "F" and (row.get("uid") != u or row.get("k") != K[u] or row.get("s") != S[u] or row.get("b") != B[u]):
+                    if k in "FG" and (row.get("uid") != u or row.get("k") != K[u] + (0.5 if k == "G" else 0) or row.get("s") != S[u] or row.get("b") != B[u]):
                         bad = f"row {i} (molecule {u}) carries features {row}"
                         break
                     if k == "B" and any(v is not None for v in row.values()):
